@@ -241,7 +241,9 @@ pub fn run(ctx: Arc<Ctx>) {
 			// every source has a tile of its own on a row of its own (the first source southmost, the last one
 			// northmost and westmost), so that the merged coverage is a proper union in both directions
 			tiles.insert((6, 20 - 5 * j as u32, 40 - 9 * j as u32), codec::encode_with(comp, &raw));
-			sources.push(MemSource::new(&format!("s{j}"), tiles, TileFormat::PBF, ct::comp_from_id(comp)).with_yields((k - 1 - j) as u8 % 2));
+			// every other source list: the first source delivers its box streams in another order than by coordinate
+			let ms = MemSource::new(&format!("s{j}"), tiles, TileFormat::PBF, ct::comp_from_id(comp)).with_yields((k - 1 - j) as u8 % 2);
+			sources.push(if j == 0 && ti % 2 == 0 { ms.with_reversed_stream() } else { ms });
 		}
 		let vpl = format!("from_vectortiles_merged [ {} ]", (0..k).map(|j| format!("from_container filename=\"mem:{j}\"")).collect::<Vec<_>>().join(", "));
 		let fac = pipeline::factory(sources, &wpath);
